@@ -149,7 +149,7 @@ func main() {
 		},
 		MinEvals:    20000,
 		MinDistinct: 1500,
-		Require: []string{"held_texts_parsed_back", "registry_complete", "types_covered", "roundtrips", "update_roundtrips_apply", "update_roundtrips_revert",
+		Require: []string{"held_texts_parsed_back", "map_key_roundtrips", "registry_complete", "types_covered", "roundtrips", "update_roundtrips_apply", "update_roundtrips_revert",
 			"shadow_store_elements_compared", "corruptions_tried", "corruptions_rejected", "corruption_positive_controls", "shape_cases", "policy_directed_cases", "shadow_proofs_verified"},
 		Extra: func(m *harness.Result, cov map[string]any) {
 			cov["exhaustive_subspace"] = "all 76 positions x 28 replacement characters of each sampled address string; all update shapes with <= 4 genesis outputs (batch 0)"
